@@ -301,8 +301,11 @@ def getitem(base: T, idx: T) -> T:
         if r_ is not None and r_ == len(base.args[2].args) - 1:
             return base.args[1]            # broadcast_to(X, (k,) + X.shape)[i] is X: a new leading axis of copies
     if base.op == "call" and base.args[0].op == "name" and base.args[0].args[0] in ("builtins.tuple", "builtins.list") and \
-            len(base.args) == 2 and base.args[1].op in ("attr", "sym", "getitem") and idx.op == "const" and \
-            isinstance(idx.args[0], int) and not isinstance(idx.args[0], bool):
+            len(base.args) == 2 and idx.op == "const" and \
+            isinstance(idx.args[0], int) and not isinstance(idx.args[0], bool) and (
+                base.args[1].op in ("attr", "sym", "getitem", "setitem", "comp", "list", "tuple", "scan_carry") or (
+                    base.args[1].op == "call" and base.args[1].args[0].op == "name" and
+                    base.args[1].args[0].args[0] in ("builtins.tuple", "builtins.list"))):
         return getitem(base.args[1], idx)          # tuple(seq)[k] is seq[k] (a field / argument / item that is a sequence)
     if idx.op == "call" and idx.args[0].op == "name" and idx.args[0].args[0].split(".")[-1] == "diag_indices" and \
             idx.args[0].args[0].split(".")[0] in ("jax", "numpy") and len(idx.args) == 2:
@@ -336,6 +339,9 @@ def getitem(base: T, idx: T) -> T:
             return mk("binop", base.args[0], getitem(a_, idx), getitem(b_, idx))
     if base.op == "comp" and idx.op != "slice":
         e_ = _comp_element(base, idx)
+        if e_ is not None:
+            return e_
+        e_ = _comp_zip_element(base, idx)
         if e_ is not None:
             return e_
     if base.op == "unzip" and idx.op == "const" and isinstance(idx.args[0], int) and not isinstance(idx.args[0], bool):
@@ -392,6 +398,26 @@ def _comp_range(base: T):
     if len({x.uid for x in iters}) > 1:
         return None
     return elts.args[0], (iters[0] if iters else None), n
+
+
+def _comp_zip_element(base: T, idx: T) -> Optional[T]:
+    """[E(a, b) for a, b in zip(A, B)][k]  ==  E(A[k], B[k])   (k a literal >= 0; no filter; a program that indexes past
+    the shorter operand raises before any number is produced)"""
+    if not (base.op == "comp" and base.args[0] == "list" and len(base.args) == 3 and idx.op == "const" and
+            isinstance(idx.args[0], int) and not isinstance(idx.args[0], bool) and idx.args[0] >= 0):
+        return None
+    elts, gen = base.args[1], base.args[2]
+    if not (elts.op == "tuple" and len(elts.args) == 1 and gen.op == "gen" and len(gen.args) == 1):
+        return None
+    src = gen.args[0]
+    if not (src.op == "call" and src.args[0].op == "name" and src.args[0].args[0] == "builtins.zip" and len(src.args) >= 2 and
+            not any(a.op in ("kw", "star") for a in src.args[1:])):
+        return None
+    iters = {x.uid: x for x in subterms(elts.args[0]) if x.op == "iter" and x.args[0] is src}
+    if len(iters) != 1:
+        return None
+    it = next(iter(iters.values()))
+    return substitute(elts.args[0], {it: getitem(src, idx)})
 
 
 def _comp_element(base: T, idx: T) -> Optional[T]:
@@ -2435,10 +2461,44 @@ class Evaluator:
         t = self.apply(fr, f, args, kws, n.lineno)
         return t
 
+    def _closure_choice(self, f: T, depth: int = 0) -> bool:
+        if depth > 8:
+            return False
+        if f.op == "closure":
+            return True
+        return f.op == "phi" and len(f.args) == 3 and all(
+            isinstance(x, T) and self._closure_choice(x, depth + 1) for x in f.args[1:])
+
     def apply(self, fr: Frame, f: T, args: List[T], kws: List[T], line: int) -> T:
         """Apply callee term f.  Local closures are inlined; everything else
         becomes a call term (and an event)."""
         # transparent wrappers: jit(f) / checkpoint(f) -> f ; partial(f, a..) kept as term
+        if f.op == "phi" and len(f.args) == 3 and self._depth < self.MAX_INLINE_DEPTH and self._closure_choice(f):
+            # a local function chosen by an earlier if / elif chain and called here: the call is that chain around the
+            # calls of the candidates
+            cond, fa, fb = f.args
+            base, path0 = fr.env, fr.path
+            e1 = base.copy()
+            fr.env, fr.path = e1, path0 + (self._pc(cond, True),)
+            r1 = self.apply(fr, fa, list(args), list(kws), line)
+            e1 = fr.env
+            e2 = base.copy()
+            fr.env, fr.path = e2, path0 + (self._pc(cond, False),)
+            r2 = self.apply(fr, fb, list(args), list(kws), line)
+            e2 = fr.env
+            fr.path = path0
+            merged = Env()
+            for k in set(e1.vars) | set(e2.vars):
+                a_, b_ = e1.vars.get(k), e2.vars.get(k)
+                if a_ is None or b_ is None:
+                    x_ = a_ if a_ is not None else b_
+                    merged.vars[k] = mk("phi", cond, x_, mk("undef", k)) if a_ is not None else mk("phi", cond, mk("undef", k), x_)
+                elif a_ is b_:
+                    merged.vars[k] = a_
+                else:
+                    merged.vars[k] = mk("phi", cond, a_, b_)
+            fr.env = merged
+            return r1 if r1 is r2 else mk("phi", cond, r1, r2)
         if f.op == "closure" and self._depth < self.MAX_INLINE_DEPTH:
             r = self.inline_closure(fr, f, args, kws, line)
             if r is not None:
